@@ -67,6 +67,13 @@ func (s *streamWriter) Invoke(msgs []actor.Envelope) {
 	)
 
 	for i := 0; i < len(msgs); i++ {
+		// The writer is registered under a PID anybody can name ("stream/<address>"): a
+		// local actor or a peer may send it anything. Only the router's deliveries are
+		// for it; the rest must not take the inbox goroutine (and the program) down.
+		if _, ok := msgs[i].Msg.(*streamDeliver); !ok {
+			slog.Error("stream writer: unexpected message", "type", reflect.TypeOf(msgs[i].Msg))
+			continue
+		}
 		var (
 			stream   = msgs[i].Msg.(*streamDeliver)
 			typeID   int32
